@@ -471,7 +471,7 @@ struct FaultTransport {
     flipped: Mutex<Vec<(String, usize, Vec<u8>)>>,
 }
 
-const GARBAGE_VARIANTS: usize = 6;
+const GARBAGE_VARIANTS: usize = 9;
 
 fn garbage(bytes: &[u8], lay: &Layout, variant: usize) -> (Vec<u8>, &'static str) {
     let mut b = bytes.to_vec();
@@ -499,6 +499,25 @@ fn garbage(bytes: &[u8], lay: &Layout, variant: usize) -> (Vec<u8>, &'static str
                 *x = 0;
             }
             (b, "metadata-zeroed")
+        }
+        6 => {
+            // continuation marker of the first record batch replaced by a small legacy length
+            let m = lay.msgs.iter().find(|m| m.kind == "batch").unwrap_or(&lay.msgs[0]);
+            b[m.start..m.start + 4].copy_from_slice(&16u32.to_le_bytes());
+            (b, "batch-marker-small")
+        }
+        7 => {
+            // the schema message's flatbuffer overwritten
+            let mlen = i32::from_le_bytes(b[4..8].try_into().unwrap()) as usize;
+            for x in &mut b[8..8 + mlen] {
+                *x = 0xEE;
+            }
+            (b, "schema-metadata-garbage")
+        }
+        8 => {
+            // the schema message removed: the stream starts with a record batch
+            let m0 = &lay.msgs[0];
+            (bytes[m0.end..].to_vec(), "schema-missing")
         }
         _ => {
             // every byte replaced by a fixed pseudo-random pattern
@@ -979,7 +998,9 @@ async fn proxy_conn(mut conn: tokio::net::TcpStream, upstream: String, peer: usi
             rec["t"] = json!(fr.table);
             rec["i"] = json!(fr.shard_index);
             rec["n"] = json!(fr.shard_count);
-            fault = st.plan.lock().unwrap().get(&(fr.table.clone(), peer)).cloned().unwrap_or(HFault::None);
+            let plan = st.plan.lock().unwrap();
+            // peer -1 in a case = whichever peer is sent this table (the address order decides which one that is)
+            fault = plan.get(&(fr.table.clone(), peer)).or_else(|| plan.get(&(fr.table.clone(), usize::MAX))).cloned().unwrap_or(HFault::None);
         }
     }
     match fault {
@@ -1220,7 +1241,7 @@ pub fn http(a: &[String]) -> i32 {
                     let mut p = st.plan.lock().unwrap();
                     p.clear();
                     for f in c["faults"].as_array().cloned().unwrap_or_default() {
-                        p.insert((f["t"].as_str().unwrap().to_string(), f["peer"].as_u64().unwrap() as usize), hfault_of(&f));
+                        p.insert((f["t"].as_str().unwrap().to_string(), f["peer"].as_i64().map(|x| if x < 0 { usize::MAX } else { x as usize }).unwrap()), hfault_of(&f));
                     }
                     if c["layout"].as_i64().unwrap_or(0) == 1 {
                         p.insert(("*layout*".to_string(), 0), HFault::None);
